@@ -71,7 +71,7 @@ class Contract:
                  modifies=(), loops=None, locals=None, ghost=None, inline=False, pure=None,
                  props=(), trusted=None, maintains_inv=True, assumes_inv=True, generator=None,
                  interference=None, ghost_params=None, noreturn=False, havoc_calls=None,
-                 commit=None, canary=True, closure_env=None, prove_asserts=False, ghost_results=None, raises_args=None, defaults=None, portfolio=False, bind_result=None, tier='quick', shard_depth=None, feas_timeout_ms=None):
+                 commit=None, canary=True, closure_env=None, prove_asserts=False, ghost_results=None, raises_args=None, defaults=None, portfolio=False, bind_result=None, tier='quick', shard_depth=None, feas_timeout_ms=None, views=None):
         self.key = key
         self.params = params or {}
         self.returns = returns
@@ -109,6 +109,7 @@ class Contract:
         self.closure_env = closure_env
         self.ghost_results = ghost_results or {}
         self.defaults = defaults or {}
+        self.views = views or {}         # callee key -> Contract used instead of the callee's own contract inside this function
         self.feas_timeout_ms = feas_timeout_ms   # budget of one path-feasibility query (unknown = keep the path)
         self.shard_depth = shard_depth   # explore the path tree in parallel below all decision prefixes of this length
         self.tier = tier                 # 'thorough': only verified by the thorough command (slow unit)
